@@ -168,6 +168,12 @@ def run_c18(ctx):
                         "standard_table": "every member of add_std_types (418) + custom registrations, 4 spellings each, before and after the JSON round trip; unregistered type must not be answered"})
     ctx.absorb_reports(reports, binary=ctx.last_binary, outs=ctx.last_outs)
     release_pass(ctx, "resolver", ["--count", count // 4], 900 if ctx.quick else 5400)
+    # and with every cargo feature of truc switched on (they add members to the type tables)
+    allf, feats = common.cargo_build_all_features("layoutmon", "fastdebug")
+    if allf:
+        reports = ctx.run_layoutmon(allf, "resolver", NS, lambda s: ["--count", count // 4], 900 if ctx.quick else 5400)
+        ctx.subruns.append({"engine": "layoutmon resolver", "truc_built_with_features": feats, "shards": NS, "differential_histories_per_shard": count // 4})
+        ctx.absorb_reports(reports, binary=ctx.last_binary, outs=ctx.last_outs, label="all-features")
 
 
 ASSUME_A = ["the reference model in harness/layoutmon/src/hist.rs states the builder contract correctly",
